@@ -363,10 +363,9 @@ func TestVerif_C30(t *testing.T) {
 	}
 	r.Info["deviation_bound"] = map[string]int{"small_shapes": boundFor(c30Scenario{}), "other_shapes": 2}
 	completed := 0
+	// every shard runs every scenario; vmc.Explore deals the second-level subtrees of each DFS
+	// over the shards (balanced, and the counts stay exact)
 	for idx, sc := range c30Scenarios(r) {
-		if idx%r.Shards != r.Shard {
-			continue
-		}
 		if r.Expired() {
 			break
 		}
@@ -376,22 +375,19 @@ func TestVerif_C30(t *testing.T) {
 		if fmt.Sprint(w1.log) != fmt.Sprint(w2.log) {
 			r.HarnessError("C30 nondeterministic default schedule for %s: %v vs %v", sc, w1.log, w2.log)
 		}
-		shards, shard := r.Shards, r.Shard
-		r.Shards, r.Shard = 1, 0
 		st := vmc.Explore(r, func(c *vmc.Chooser) {
 			w, out := c30Run(sc, c)
 			c30Check(r, sc, w, out, c.Choices())
 		}, vmc.DFSOpts{Bound: boundFor(sc)})
-		r.Shards, r.Shard = shards, shard
 		r.Add("evaluations", st.Executions)
 		r.Add("states", st.Executions)
 		r.Add("transitions", st.Points)
 		r.Add("traces_validated_against_impl", st.Executions)
 		r.SetMax("max_points_per_execution", int64(st.MaxPoints))
-		if st.Complete {
+		if st.Complete && r.Shard == 0 {
 			completed++
 		}
-		if idx < 3 {
+		if idx < 3 && r.Shard == 0 {
 			r.Sample(map[string]any{"scenario": sc.String(), "executions": st.Executions, "default_schedule_events": w1.log})
 		}
 	}
